@@ -54,7 +54,11 @@ var solvers2 = []solverSpec{
 const maxVCBytes = 1 << 20
 
 // buildQuery renders the SMT-LIB text of one obligation.
-func (u *Unit) buildQuery(o *Obligation) string {
+func (u *Unit) buildQuery(o *Obligation) string { return u.buildQueryOpt(o, false) }
+
+// buildQueryOpt with dropQuant leaves out every quantified hypothesis. Fewer hypotheses: "unsat" still proves the
+// obligation; "sat" is only a candidate counterexample (it may violate a dropped hypothesis).
+func (u *Unit) buildQueryOpt(o *Obligation, dropQuant bool) string {
 	var b bytes.Buffer
 	b.WriteString("(set-option :produce-models true)\n(set-logic ALL)\n")
 	for _, d := range u.S.sortDecls {
@@ -62,6 +66,9 @@ func (u *Unit) buildQuery(o *Obligation) string {
 		b.WriteByte('\n')
 	}
 	for _, d := range u.S.decls {
+		if dropQuant && strings.HasPrefix(d, "(assert") && strings.Contains(d, "(forall ") {
+			continue
+		}
 		b.WriteString(d)
 		b.WriteByte('\n')
 	}
@@ -77,11 +84,14 @@ func (u *Unit) buildQuery(o *Obligation) string {
 				}
 			}
 		}
-		if !hidden {
+		if !hidden && !dropQuant {
 			b.WriteString("(assert " + d.formula + ")\n")
 		}
 	}
 	for _, a := range u.asserts[:o.NAsserts] {
+		if dropQuant && (strings.Contains(a, "(forall ") || strings.Contains(a, "(exists ")) {
+			continue
+		}
 		b.WriteString("(assert " + a + ")\n")
 	}
 	if o.ExpectSat {
@@ -301,6 +311,22 @@ func dischargeAll(units []*Unit, timeoutS int, seed int, workDir string) {
 					o.Result = "failed"
 					o.Model = ""
 					o.Output = "no definite answer (" + res.answer + ")\n" + res.out
+					if res.answer != "error" {
+						// second look without the quantified hypotheses
+						rq := j.u.buildQueryOpt(o, true)
+						r2 := solveOne(rq, 5, seed, workDir, fmt.Sprintf("q%04dr", j.n))
+						o.TimeS += r2.timeS
+						switch r2.answer {
+						case "unsat":
+							o.Result = "discharged"
+							o.Solver = r2.solver + " (without quantified hypotheses)"
+							o.Output = r2.out
+						case "sat":
+							o.Solver = r2.solver
+							o.Model = r2.out
+							o.Output = "sat once the quantified hypotheses are left out (candidate counterexample; the full query was undecided: " + res.answer + ")\n" + r2.out
+						}
+					}
 				}
 			}
 		}()
